@@ -8,6 +8,7 @@ package revoceng
 import (
 	"crypto"
 	"crypto/ecdsa"
+	stdrsa "crypto/rsa"
 	"crypto/sha1"
 	"crypto/sha256"
 	"crypto/sha512"
@@ -218,10 +219,38 @@ func spkiOf(pub any) []byte {
 	return b
 }
 
+// signKey signs hand-built structures: ECDSA (deterministic) or RSA PKCS#1 v1.5 with SHA-256, both from Go's crypto.
+type signKey struct {
+	ec  *ecdsa.PrivateKey
+	rsa *stdrsa.PrivateKey
+}
+
+func (k signKey) algID() []byte {
+	if k.ec != nil {
+		return dSeq(dOID(ecdsaSigOID(ecHashFor(k.ec))...))
+	}
+	return dSeq(dOID(1, 2, 840, 113549, 1, 1, 11), dNull())
+}
+
+func (k signKey) sign(tbs []byte) []byte {
+	if k.ec != nil {
+		_, sig := signECDSA(k.ec, ecHashFor(k.ec), tbs)
+		return sig
+	}
+	sig, err := stdrsa.SignPKCS1v15(nil, k.rsa, crypto.SHA256, digestOf(crypto.SHA256, tbs))
+	if err != nil {
+		panic(err)
+	}
+	return sig
+}
+
 // buildCert assembles and signs a certificate with the independent writer.
 func buildCert(s certSpec, signer *ecdsa.PrivateKey) []byte {
-	h := ecHashFor(signer)
-	alg := dSeq(dOID(ecdsaSigOID(h)...))
+	return buildCertWith(s, signKey{ec: signer})
+}
+
+func buildCertWith(s certSpec, signer signKey) []byte {
+	alg := signer.algID()
 	nb, na := s.notBefore, s.notAfter
 	if nb.IsZero() {
 		nb, na = tNotBefore, tNotAfter
@@ -245,8 +274,7 @@ func buildCert(s certSpec, signer *ecdsa.PrivateKey) []byte {
 		parts = append(parts, dCtx(3, dSeq(exts...)))
 	}
 	tbs := dSeq(parts...)
-	_, sig := signECDSA(signer, h, tbs)
-	return dSeq(tbs, alg, dBitString(sig))
+	return dSeq(tbs, alg, dBitString(signer.sign(tbs)))
 }
 
 // party is a key with a name and (for CAs / responders) a certificate in both parsed forms.
@@ -254,7 +282,7 @@ type party struct {
 	label string
 	name  *dn
 	ec    *ecdsa.PrivateKey // nil for RSA parties
-	rsa   *keys.RSAKey
+	rsa   *stdrsa.PrivateKey
 	zrsa  *zrsa.PrivateKey
 	der   []byte
 	z     *zx509.Certificate
@@ -265,8 +293,10 @@ func (p *party) pub() any {
 	if p.ec != nil {
 		return &p.ec.PublicKey
 	}
-	return &p.rsa.Std().PublicKey
+	return &p.rsa.PublicKey
 }
+
+func (p *party) signKey() signKey { return signKey{ec: p.ec, rsa: p.rsa} }
 
 // signer is what zcrypto's creation APIs get.
 func (p *party) signer() crypto.Signer {
